@@ -641,7 +641,74 @@ def oracle_C10(inp, meta=None):
     return False, f"{before}.{method}{tuple(args)!r} -> {R!r} is self-consistent"
 
 
-ORACLES.update({"C10": oracle_C10, "C11": oracle_C11})
+def _generators():
+    """the real generator under several seeds, plus two scripted RNGs that always take the extreme
+    outcome of every draw (C01: `for every outcome of the random draws`)"""
+    import random as _r
+    from d42.generation import Generator, Random, RegexGenerator
+
+    class Extreme(Random):
+        def __init__(self, hi: bool) -> None:
+            self.hi = hi
+
+        def random_int(self, start, end):
+            if start > end:
+                raise ValueError("empty range for randint")
+            return end if self.hi else start
+
+        def random_float(self, start, end, precision=Nil):
+            if precision is Nil:
+                if start > end:
+                    raise ValueError("random_float: start must be <= end")
+                return end if self.hi else start
+            return super().random_float(start, end, precision)
+
+        def random_choice(self, sequence):
+            return sequence[-1] if self.hi else sequence[0]
+
+        def random_str(self, length, alphabet):
+            return "".join(self.random_choice(alphabet) for _ in range(length))
+
+    gens = []
+    for hi in (False, True):
+        rnd = Extreme(hi)
+        gens.append((f"extreme-{'max' if hi else 'min'}", Generator(rnd, RegexGenerator(rnd)), None))
+    for seed in range(12):
+        rnd = Random()
+        gens.append((f"seed-{seed}", Generator(rnd, RegexGenerator(rnd)), seed))
+    return gens
+
+
+def oracle_C01(inp, meta=None):
+    S = build(inp["schema"])
+    w = build(inp["w_sat"]) if "w_sat" in inp else None
+    sat = (w is not None and conforms(S, w))
+    if not sat:
+        # look for any conforming value among a few obvious candidates
+        for cand in [None, True, 0, 1, 0.0, 1.0, "", "a", b"", [], {}, math.inf, -math.inf]:
+            try:
+                if conforms(S, cand):
+                    sat = True
+                    w = cand
+                    break
+            except Exception:
+                pass
+    if not sat:
+        raise Unreachable("no conforming value known for the model's schema (satisfiability not established)")
+    import random as _r
+    for name, gen, seed in _generators():
+        if seed is not None:
+            _r.seed(seed)
+        try:
+            v = S.__accept__(gen)
+        except Exception as e:
+            return True, f"fake({S!r}) raised {e!r} [{name}] although {w!r} conforms"
+        if validate(S, v).has_errors() or not conforms(S, v):
+            return True, f"fake({S!r}) = {v!r} [{name}] does not validate: {validate(S, v).get_errors()}"
+    return False, f"fake({S!r}) validates for all tried RNG outcomes"
+
+
+ORACLES.update({"C10": oracle_C10, "C11": oracle_C11, "C01": oracle_C01})
 
 
 if __name__ == "__main__":
